@@ -112,4 +112,193 @@ Proof.
         eapply ext_rd; [exact E' | apply rd_upd_same; eapply rd_lt; exact Eo | exact No].
       * apply (R' k); assumption.
 Qed.
+
+(* ================= ProductSpaceOperator: the two loops ================= *)
+(* an entry together with the function its operator denotes *)
+Definition sent := (@entry VR * (list R -> list R))%type.
+Definition ent_ok (ro : ro_t) (doms rans : list space) (p : sent) : Prop :=
+  exists dj ri, nth_error doms (en_col (fst p)) = Some dj /\ nth_error rans (en_row (fst p)) = Some ri /\
+                den ro (en_op (fst p)) dj ri [] (snd p).
+
+Section Loops.
+Variables (ro : ro_t) (doms rans : list space) (xs outs : list nat) (xd : nat -> list R).
+
+(* the static facts about the argument and the output parts, relative to a store *)
+Definition args_ok (s : sR) : Prop :=
+  wf_store s /\ good ro s /\
+  (forall j xj dj, nth_error xs j = Some xj -> nth_error doms j = Some dj -> rd s xj = Some (dj, cl (xd j))) /\
+  length xs = length doms.
+Definition outs_static : Prop :=
+  NoDup outs /\ length outs = length rans /\
+  (forall o, In o outs -> ~ In o xs) /\ (forall o, In o outs -> ~ In o (ro_ids ro)).
+
+Lemma args_ok_ext (s s' : sR) m :
+  args_ok s -> ext s s' m -> wf_store s' -> (forall i, In i m -> ~ In i xs /\ ~ In i (ro_ids ro)) -> args_ok s'.
+Proof.
+  intros (W & G & X & L) E W' D. unfold args_ok. splits; auto.
+  - eapply good_ext; [exact G | exact E | intros i I; apply (D i I)].
+  - intros j xj dj Ej Ed. eapply ext_rd; [exact E | apply (X j xj dj Ej Ed) |].
+    intros I. apply (proj1 (D xj I)). eapply nth_error_In; exact Ej.
+Qed.
+
+(* ---- out-of-place loop:  out[i] += op(x[j]) ---- *)
+Definition stepo (acc : nat -> list R) (p : sent) : nat -> list R :=
+  fun k => if (k =? en_row (fst p))%nat then radd (acc k) (snd p (xd (en_col (fst p)))) else acc k.
+Definition rows_hold (s : sR) (acc : nat -> list R) : Prop :=
+  forall i o ri, nth_error outs i = Some o -> nth_error rans i = Some ri ->
+    rd s o = Some (ri, cl (acc i)) /\ length (acc i) = fst ri.
+
+Lemma oop_loop_ok (se : list sent) : forall (s : sR) (acc : nat -> list R),
+  Forall (ent_ok ro doms rans) se -> outs_static -> args_ok s -> rows_hold s acc ->
+  exists s', pso_oop_loop junk (map fst se) xs outs s = Ok tt s' /\
+    args_ok s' /\ rows_hold s' (fold_left stepo se acc) /\ ext s s' outs.
+Proof.
+  induction se as [|[e F] se IH]; intros s acc HF HO HA HR.
+  - exists s. splits; [reflexivity | exact HA | exact HR | apply ext_refl].
+  - inversion HF as [|? ? (dj & ri & Ecol & Erow & HD) HF']; subst. cbn [fst snd] in *.
+    destruct HO as (ND & Lo & Ox & Oro). destruct HA as (W & G & X & Lx).
+    destruct (nth_error xs (en_col e)) as [xj|] eqn:Exj.
+    2:{ exfalso. apply nth_error_None in Exj. assert (nth_error doms (en_col e) <> None) by congruence.
+        apply nth_error_Some in H. lia. }
+    destruct (nth_error outs (en_row e)) as [oi|] eqn:Eoi.
+    2:{ exfalso. apply nth_error_None in Eoi. assert (nth_error rans (en_row e) <> None) by congruence.
+        apply nth_error_Some in H. lia. }
+    cbn [map fst pso_oop_loop]. unfold nthid. rewrite Exj, Eoi. cbn [lift_opt].
+    rewrite (bind_Ok _ _ s xj s) by reflexivity. rewrite (bind_Ok _ _ s oi s) by reflexivity.
+    pose proof (X _ _ _ Exj Ecol) as Ex.
+    destruct (den_ok junk _ _ _ _ _ _ HD) as (Hd & _ & Hoop & _).
+    rewrite <- Hd in Ex.
+    destruct (Hoop s xj _ W G Ex) as (r & s1 & Hc & Er & E1 & W1 & Hr).
+    unfold call. rewrite (bind_Ok _ _ _ _ _ Hc). cbn [elem_id]. rewrite (bind_Ok _ _ s1 r s1) by reflexivity.
+    destruct (HR _ _ _ Eoi Erow) as (Eo & La).
+    assert (Eo1 : rd s1 oi = Some (ri, cl (acc (en_row e)))) by (eapply ext_rd; [exact E1 | exact Eo | intros []]).
+    rewrite (bind_Ok _ _ _ _ _ (do_iadd_clean _ _ _ _ _ _ W1 Eo1 Er)).
+    set (v := F (xd (en_col e))). set (s2 := upd s1 oi (ri, cl (radd (acc (en_row e)) v))).
+    assert (Lv : length v = fst ri) by (eapply wf_len; [exact W1 | exact Er]).
+    assert (Lsum : length (radd (acc (en_row e)) v) = fst ri) by (rewrite radd_length; congruence).
+    assert (W2 : wf_store s2) by (apply wf_upd; [exact W1 | rewrite cl_length; exact Lsum]).
+    assert (E12 : ext s1 s2 [oi]) by (eapply ext_upd; exact Eo1).
+    assert (E02 : ext s s2 [oi]) by (eapply ext_trans; [exact E1 | exact E12 | intros i [] | intros i _ I; exact I]).
+    assert (Ioi : In oi outs) by (eapply nth_error_In; exact Eoi).
+    assert (HA2 : args_ok s2).
+    { apply (args_ok_ext s s2 [oi]); [unfold args_ok; splits; assumption | exact E02 | exact W2 |].
+      intros i [<-|[]]. split; [apply Ox | apply Oro]; exact Ioi. }
+    assert (HR2 : rows_hold s2 (stepo acc (e, F))).
+    { intros i o ri' Ei Eri. unfold stepo. cbn [fst snd]. destruct (Nat.eqb_spec i (en_row e)) as [->|Ni].
+      - rewrite Eoi in Ei. injection Ei as <-. rewrite Erow in Eri. injection Eri as <-.
+        split; [apply rd_upd_same; eapply rd_lt; exact Eo1 | exact Lsum].
+      - destruct (HR _ _ _ Ei Eri) as (Eo' & La').
+        assert (No : o <> oi).
+        { intros ->. apply Ni. eapply NoDup_nth_error; [exact ND | | congruence].
+          apply nth_error_Some. congruence. }
+        split; [|exact La']. unfold s2. rewrite rd_upd_other by exact No.
+        eapply ext_rd; [exact E1 | exact Eo' | intros []]. }
+    destruct (IH s2 (stepo acc (e, F)) HF' (conj ND (conj Lo (conj Ox Oro))) HA2 HR2) as (s' & Hl & HA' & HR' & E').
+    exists s'. splits; [exact Hl | exact HA' | exact HR' |].
+    eapply ext_trans; [exact E02 | exact E' | intros i [<-|[]]; exact Ioi | intros i _ I; exact I].
+Qed.
+
+(* ---- in-place loop: first entry of a row writes out[i], later ones accumulate ---- *)
+Lemma set_true_length l i : length (set_true l i) = length l.
+Proof. revert i; induction l as [|b l IH]; intros [|i]; cbn; auto. Qed.
+Lemma set_true_nth l i k : (i < length l)%nat ->
+  nth k (set_true l i) false = if (k =? i)%nat then true else nth k l false.
+Proof.
+  revert i k; induction l as [|b l IH]; intros [|i] [|k] L; cbn in *; try lia; try reflexivity.
+  apply IH. lia.
+Qed.
+
+Definition stepi (acc : nat -> option (list R)) (p : sent) : nat -> option (list R) :=
+  fun k => if (k =? en_row (fst p))%nat
+           then Some (match acc k with
+                      | Some a => radd a (snd p (xd (en_col (fst p))))
+                      | None => snd p (xd (en_col (fst p)))
+                      end)
+           else acc k.
+Definition rows_ip (s0 s : sR) (acc : nat -> option (list R)) (ev : list bool) : Prop :=
+  length ev = length outs /\
+  forall i o ri, nth_error outs i = Some o -> nth_error rans i = Some ri ->
+    match acc i with
+    | Some a => nth i ev false = true /\ rd s o = Some (ri, cl a) /\ length a = fst ri
+    | None => nth i ev false = false /\ rd s o = rd s0 o /\ exists d, rd s0 o = Some (ri, d)
+    end.
+
+Lemma ip_loop_ok (s0 : sR) (se : list sent) : forall (s : sR) (acc : nat -> option (list R)) (ev : list bool),
+  Forall (ent_ok ro doms rans) se -> outs_static -> args_ok s -> rows_ip s0 s acc ev ->
+  exists ev' s', pso_ip_loop junk (map fst se) xs outs ev s = Ok ev' s' /\
+    args_ok s' /\ rows_ip s0 s' (fold_left stepi se acc) ev' /\ ext s s' outs.
+Proof.
+  induction se as [|[e F] se IH]; intros s acc ev HF HO HA HR.
+  - exists ev, s. splits; [reflexivity | exact HA | exact HR | apply ext_refl].
+  - inversion HF as [|? ? (dj & ri & Ecol & Erow & HD) HF']; subst. cbn [fst snd] in *.
+    destruct HO as (ND & Lo & Ox & Oro). destruct HA as (W & G & X & Lx). destruct HR as (Lev & HR).
+    destruct (nth_error xs (en_col e)) as [xj|] eqn:Exj.
+    2:{ exfalso. apply nth_error_None in Exj. assert (nth_error doms (en_col e) <> None) by congruence.
+        apply nth_error_Some in H. lia. }
+    destruct (nth_error outs (en_row e)) as [oi|] eqn:Eoi.
+    2:{ exfalso. apply nth_error_None in Eoi. assert (nth_error rans (en_row e) <> None) by congruence.
+        apply nth_error_Some in H. lia. }
+    assert (Lrow : (en_row e < length ev)%nat).
+    { rewrite Lev. apply nth_error_Some. congruence. }
+    cbn [map fst pso_ip_loop]. unfold nthid. rewrite Exj, Eoi. cbn [lift_opt].
+    rewrite (bind_Ok _ _ s xj s) by reflexivity. rewrite (bind_Ok _ _ s oi s) by reflexivity.
+    pose proof (X _ _ _ Exj Ecol) as Ex.
+    destruct (den_ok junk _ _ _ _ _ _ HD) as (Hd & _ & Hoop & Hip).
+    rewrite <- Hd in Ex.
+    assert (Ioi : In oi outs) by (eapply nth_error_In; exact Eoi).
+    assert (Nxo : xj <> oi).
+    { intros ->. apply (Ox oi Ioi). eapply nth_error_In; exact Exj. }
+    set (v := F (xd (en_col e))).
+    (* the store after this entry, with the facts the induction needs *)
+    assert (exists s2, (if nth (en_row e) ev false
+              then bind (call junk (en_op e) (VElem xj) None) (fun v0 => bind (elem_id v0) (fun i => do_iadd oi i))
+              else bind (call junk (en_op e) (VElem xj) (Some (VElem oi))) (fun _ => ret tt)) s = Ok tt s2 /\
+            wf_store s2 /\ ext s s2 [oi] /\
+            rd s2 oi = Some (ri, cl (match acc (en_row e) with Some a => radd a v | None => v end)) /\
+            length (match acc (en_row e) with Some a => radd a v | None => v end) = fst ri)
+      as (s2 & Hstep & W2 & E02 & Eo2 & Lnew).
+    { pose proof (HR _ _ _ Eoi Erow) as HRi. destruct (acc (en_row e)) as [a|] eqn:Eacc.
+      - destruct HRi as (Hev & Eo & La). rewrite Hev.
+        destruct (Hoop s xj _ W G Ex) as (r & s1 & Hc & Er & E1 & W1 & Hr).
+        unfold call. rewrite (bind_Ok _ _ _ _ _ Hc). cbn [elem_id]. rewrite (bind_Ok _ _ s1 r s1) by reflexivity.
+        assert (Eo1 : rd s1 oi = Some (ri, cl a)) by (eapply ext_rd; [exact E1 | exact Eo | intros []]).
+        rewrite (do_iadd_clean _ _ _ _ _ _ W1 Eo1 Er). fold v.
+        assert (Lv : length v = fst ri) by (eapply wf_len; [exact W1 | exact Er]).
+        assert (Lsum : length (radd a v) = fst ri) by (rewrite radd_length; congruence).
+        eexists. splits; [reflexivity | | | | exact Lsum].
+        + apply wf_upd; [exact W1 | rewrite cl_length; exact Lsum].
+        + eapply ext_trans; [exact E1 | eapply ext_upd; exact Eo1 | intros i [] | intros i _ I; exact I].
+        + apply rd_upd_same. eapply rd_lt; exact Eo1.
+      - destruct HRi as (Hev & Eo & (d0 & Ed0)). rewrite Hev.
+        assert (Eo' : rd s oi = Some (ri, d0)) by congruence.
+        destruct (Hip s xj oi _ d0 W G Ex Eo' Nxo (Oro oi Ioi) (scr_ok_nil junk ro s xj oi)) as (s1 & Hc & Er & E1 & W1).
+        unfold call. rewrite (bind_Ok _ _ _ _ _ Hc). cbn [ret]. fold v in Er.
+        eexists. splits; [reflexivity | exact W1 | exact E1 | exact Er | eapply wf_len; [exact W1 | exact Er]]. }
+    rewrite (bind_Ok _ _ _ _ _ Hstep).
+    assert (HA2 : args_ok s2).
+    { apply (args_ok_ext s s2 [oi]); [unfold args_ok; splits; assumption | exact E02 | exact W2 |].
+      intros i [<-|[]]. split; [apply Ox | apply Oro]; exact Ioi. }
+    assert (HR2 : rows_ip s0 s2 (stepi acc (e, F)) (set_true ev (en_row e))).
+    { split; [rewrite set_true_length; exact Lev|].
+      intros i o ri' Ei Eri. unfold stepi. cbn [fst snd]. rewrite (set_true_nth _ _ _ Lrow).
+      destruct (Nat.eqb_spec i (en_row e)) as [->|Ni].
+      - rewrite Eoi in Ei. injection Ei as <-. rewrite Erow in Eri. injection Eri as <-.
+        fold v. splits; [reflexivity | exact Eo2 | exact Lnew].
+      - pose proof (HR _ _ _ Ei Eri) as HRi.
+        assert (No : o <> oi).
+        { intros ->. apply Ni. eapply NoDup_nth_error; [exact ND | | congruence].
+          apply nth_error_Some. congruence. }
+        assert (Keep : rd s2 o = rd s o).
+        { eapply ext_same; [exact E02 | | intros [Q|[]]; congruence].
+          destruct (acc i); [destruct HRi as (_ & Eo & _); eapply rd_lt; exact Eo |
+                             destruct HRi as (_ & Eo & (d & Ed)); eapply rd_lt; rewrite Eo; exact Ed]. }
+        destruct (acc i) as [a|].
+        + destruct HRi as (A & B & Cc). splits; [exact A | rewrite Keep; exact B | exact Cc].
+        + destruct HRi as (A & B & Cc). splits; [exact A | rewrite Keep; exact B | exact Cc]. }
+    destruct (IH s2 (stepi acc (e, F)) (set_true ev (en_row e)) HF' (conj ND (conj Lo (conj Ox Oro))) HA2 HR2)
+      as (ev' & s' & Hl & HA' & HR' & E').
+    exists ev', s'. splits; [exact Hl | exact HA' | exact HR' |].
+    eapply ext_trans; [exact E02 | exact E' | intros i [<-|[]]; exact Ioi | intros i _ I; exact I].
+Qed.
+End Loops.
 End PProofs.
